@@ -27,14 +27,14 @@ class SchedProp(Prop):
                    'node indices are unique (C18)']
 
     def cases(self, rng, tier):
-        n = 260 if tier == 'quick' else 5000
+        n = 260 if tier == 'quick' else 12000
         for i in range(n):
             r = rng.random()
             yield SL.gen_case(rng, size='small' if r < 0.7 else 'large',
                               preplaced=rng.random() < self.preplaced_share,
                               disciplined=rng.random() < 0.93)
         if tier == 'thorough':
-            yield from self.small_scope()
+            yield from self.small_scope(6)
 
     @staticmethod
     def small_scope(maxlen=5):
